@@ -25,6 +25,9 @@ C["C13"] = dict(
 C["C02"] = dict(
   text="Lean 4 theorems composing the C01 hasher model with the verifier model: a created torrent verifies in every state where the listed files hold their original bytes (unlisted files arbitrary, any schedules); if verification succeeds then every listed file is a regular file with exactly its bytes at creation, or two distinct blocks with equal digests are exhibited (no injectivity assumed); revert restores success. Correspondence: CLI histories (create, random edits, verify, revert, re-create) judged by byte comparison against the saved original and by the model, including named failing files and default locations.",
   note="Trusted: Lean kernel; edit histories are covered by quantifying over arbitrary file-system states; default-location path algebra exercised on the CLI only; sampled histories tie model to code.")
+C["C04"] = dict(
+  text="Lean 4 theorems over a strict bencode codec mirroring bendy (mutual inductive values, fuelled decoder proved sound: whatever decodes is byte-for-byte what was stored): whenever Infohash::from_input succeeds on ANY byte string - unknown keys, non-UTF-8 strings, nested values, trailing bytes, any nesting limit - a value-free scanner finds the span of `info`, the span is a contiguous part of the input and the reported hash is H(span) (infohash_is_span). Correspondence: generated accepted and malformed torrents through show, show --json, show from stdin, link, create --link/--show; 40-hex values compared with SHA-1 of the span found by the harness's own scanner and with the model.",
+  note="Trusted: Lean kernel; bendy's decoder/encoder modelled, tied by the differential check; SHA-1 as a parameter.")
 
 
 def main():
